@@ -95,6 +95,11 @@ def out_of_bounds(chk):
         loop = e.loops[-1]
         cname = loop.elem
         over_children = loop.iter[0] == "fld" and loop.iter[2] == "children" and loop.iter[1] == TARGET
+        di = sym._dict_iter(loop.iter)
+        if not over_children and di is not None and canon(di[1]) == canon(("fld", TARGET, "children", 0)) and di[0] in ("items", "keys"):
+            # for name, child in target.children.items(): the same names and the same children
+            over_children = True
+            cname = ("item", loop.elem, 0) if di[0] == "items" else loop.elem
         c = ("sub", ("fld", TARGET, "children", 0), cname)
         w = ("fld", c, R.WEIGHT, 0)
         t = ("sub", targets, cname)
